@@ -110,6 +110,7 @@ func (c sessCfg) mtu() int {
 // per-session monitor
 
 type sessMon struct {
+	flow    *wireFlow
 	w       *sessWorld
 	name    string
 	s       *UDPSession
@@ -334,6 +335,7 @@ func (w *sessWorld) watch(s *UDPSession, name string, from, to net.Addr, cfg ses
 		w.nviol.Add(1)
 		w.rec.violation(key, fmt.Sprintf("t=%dms ", w.hub.nowMs())+detail, w.desc)
 	})
+	m.flow = f
 	w.mu.Lock()
 	w.flows[from.String()+">"+to.String()] = f
 	w.mons = append(w.mons, m)
@@ -400,6 +402,7 @@ func (w *sessWorld) shutdown(order []string, leakCheck bool) {
 		synctest.Wait()
 		w.leakCheck()
 	}
+	w.reap()
 	w.hub.stop()
 	for _, m := range w.mons {
 		sessKCPs.Delete(m.s.kcp)
@@ -414,6 +417,41 @@ func (w *sessWorld) shutdown(order []string, leakCheck bool) {
 	w.rec.count("net_datagram_extra_copies", w.hub.nDup.Load())
 	sanReset()
 	sanTally(w.rec)
+}
+
+// reap closes sessions the listener created that the scenario never got hold
+// of (after the leak check has reported them), so that the bubble can end.
+func (w *sessWorld) reap() {
+	if w.listener == nil {
+		return
+	}
+	for i := 0; i < 3; i++ {
+		n := 0
+		for {
+			select {
+			case s := <-w.listener.chAccepts:
+				s.Close()
+				n++
+				continue
+			default:
+			}
+			break
+		}
+		w.listener.sessionLock.RLock()
+		var acc []*UDPSession
+		for _, s := range w.listener.sessions {
+			acc = append(acc, s)
+		}
+		w.listener.sessionLock.RUnlock()
+		for _, s := range acc {
+			s.Close()
+			n++
+		}
+		if n == 0 {
+			return
+		}
+		time.Sleep(time.Second)
+	}
 }
 
 var goroutineHdr = regexp.MustCompile(`(?m)^goroutine (\d+) \[([^\]]*)\]:`)
@@ -455,6 +493,9 @@ func (w *sessWorld) leakCheck() {
 			fn = fn[:j]
 		}
 		fn = strings.TrimPrefix(fn, "created by ")
+		if j := strings.Index(fn, " in goroutine"); j > 0 {
+			fn = fn[:j]
+		}
 		fn = strings.TrimPrefix(fn, "github.com/xtaci/kcp-go/v5.")
 		w.viol("C15 library goroutine still alive 10 virtual minutes after everything was closed: "+fn, "%s", st)
 	}
@@ -490,6 +531,8 @@ type xfer struct {
 	doneW, doneR chan struct{}
 	pauseAt      int // reader pauses once after this many bytes
 	pauseFor     time.Duration
+	wPauseAt     int // writer pauses once after this many bytes
+	wPauseFor    time.Duration
 }
 
 func (x *xfer) start() {
@@ -502,7 +545,12 @@ func (x *xfer) writer() {
 	defer close(x.doneW)
 	off := 0
 	i := 0
+	wpaused := false
 	for off < x.total {
+		if x.wPauseAt > 0 && !wpaused && off >= x.wPauseAt {
+			wpaused = true
+			time.Sleep(x.wPauseFor)
+		}
 		sz := x.wsizes[i%len(x.wsizes)]
 		i++
 		if sz > x.total-off {
@@ -664,6 +712,9 @@ type sessScenario struct {
 	CloseOrder []string   `json:"close_order,omitempty"`
 	PauseAt    int        `json:"reader_pause_after,omitempty"` // server-side reader pauses once after this many bytes
 	PauseMs    int        `json:"reader_pause_ms,omitempty"`
+	NoMsgCheck bool       `json:"-"`                            // MSS changes during the run: message lengths are not modelled
+	WPauseAt   int        `json:"writer_pause_after,omitempty"` // both writers pause once (client after this many bytes, server proportionally)
+	WPauseMs   int        `json:"writer_pause_ms,omitempty"`
 }
 
 func genSessScenario(rng *vrng, idx int64, part string) sessScenario {
@@ -777,15 +828,16 @@ func runSessScenario(t *testing.T, rec *vrec, sc *sessScenario, rng *vrng, hooks
 	streamCS, streamSC := uint64(0xC000)+uint64(sc.Case&0xfff), uint64(0xD000)+uint64(sc.Case&0xfff)
 	w.watch(client, "client", cconn.addr, w.laddr, sc.CfgC, streamCS)
 	res := sessResult{w: w, client: client}
+	if hooks.pre != nil {
+		hooks.pre(w, client)
+	}
 
 	client.mu.Lock()
 	mssC := int(client.kcp.mss)
 	client.mu.Unlock()
-	if hooks.pre != nil {
-		hooks.pre(w, client)
-	}
-	x1 := &xfer{w: w, name: "client->server", from: client, stream: streamCS, total: sc.BytesCS, wsizes: sc.WSizes, rsizes: sc.RSizes, vec: sc.Vec, msgMode: !sc.CfgC.Stream, mss: mssC,
-		pauseAt: sc.PauseAt, pauseFor: time.Duration(sc.PauseMs) * time.Millisecond}
+	x1 := &xfer{w: w, name: "client->server", from: client, stream: streamCS, total: sc.BytesCS, wsizes: sc.WSizes, rsizes: sc.RSizes, vec: sc.Vec, msgMode: !sc.CfgC.Stream && !sc.NoMsgCheck, mss: mssC,
+		pauseAt: sc.PauseAt, pauseFor: time.Duration(sc.PauseMs) * time.Millisecond,
+		wPauseAt: sc.WPauseAt, wPauseFor: time.Duration(sc.WPauseMs) * time.Millisecond}
 	// the first datagram creates the server session; Accept it, configure it
 	x1.doneW, x1.doneR = make(chan struct{}), make(chan struct{})
 	go x1.writer()
@@ -807,7 +859,8 @@ func runSessScenario(t *testing.T, rec *vrec, sc *sessScenario, rng *vrng, hooks
 	server.mu.Lock()
 	mssS := int(server.kcp.mss)
 	server.mu.Unlock()
-	x2 := &xfer{w: w, name: "server->client", from: server, to: client, stream: streamSC, total: sc.BytesSC, wsizes: sc.WSizes, rsizes: sc.RSizes, vec: sc.Vec, msgMode: !sc.CfgS.Stream, mss: mssS}
+	x2 := &xfer{w: w, name: "server->client", from: server, to: client, stream: streamSC, total: sc.BytesSC, wsizes: sc.WSizes, rsizes: sc.RSizes, vec: sc.Vec, msgMode: !sc.CfgS.Stream && !sc.NoMsgCheck, mss: mssS,
+		wPauseAt: sc.WPauseAt * sc.BytesSC / max(1, sc.BytesCS), wPauseFor: time.Duration(sc.WPauseMs) * time.Millisecond}
 	x2.start()
 	res.xs = []*xfer{x1, x2}
 	if hooks.post != nil {
